@@ -244,6 +244,12 @@ def run_bounds(case, ctx, lm):
     ctx.nontrivial = True
 
 
+def evidence_extra(all_states):
+    sched = {s for s in all_states if s.startswith("schedule/")}
+    return {"distinct_thread_schedules": len(sched),
+            "schedule_measure": "distinct thread-switch logs (sequence of (from-thread, to-thread) hand-offs over all parallel sections of a run)"}
+
+
 def truncate(case, step):
     c = dict(case)
     c["events"] = case["events"][: step + 1]
